@@ -25,6 +25,8 @@ DECIDED = [
     "R-C17-ISOLATE (signature): subscriber kwargs are filtered by the subscriber's own signature, not the asyncify wrapper's; R-C17-TABLE (names): every implementation of a wrapped operation keeps the declared parameter names",
     "R-C17-PROTOCOL (wrapped only): the unwrapped _actor_run is referenced only where it is wrapped",
     "R-C17-EMITTER-OWN (round 5): the wiring loop over emitters has no break / return (every emitter gets its subscribers)",
+    "R-C17-PROTOCOL / R-C17-CONTEXT (round 6): after_<op> is not reachable from the exception / cancellation edges of the wrapped run; consume() spawns no task that performs broker operations",
+    "R-C17-AWAITED: in the files this property is anchored in, no bare statement calls a coroutine function (the operation would never run)",
 ]
 NOT_DECIDED = ["subscriber slowness", "argument fidelity for exotic call styles as values"]
 ASSUMPTIONS = ["asyncio.create_task copies the current context: a ContextVar set inside the task does not leak to the caller"]
@@ -35,12 +37,40 @@ ABC = "repid.connections.abc"
 
 
 def run(ctx: Ctx) -> None:
+    from .shared import every_operation_awaited
+
+    every_operation_awaited(ctx, "R-C17-AWAITED")  # in the files this property is anchored in, no asynchronous operation is created and dropped
     protocol(ctx)
+    after_only_on_success(ctx)
+    from .brokers import no_spawn_inside_wrapped
+
+    no_spawn_inside_wrapped(ctx, "R-C17-CONTEXT")
     wrapped_only(ctx)
     context(ctx)
     table(ctx)
     isolate(ctx)
     emitter_own(ctx)
+
+
+def after_only_on_success(ctx: Ctx, rule="R-C17-PROTOCOL") -> None:
+    """after_<op> reports a completed operation and carries its result: it is not emitted when the operation raised or was cancelled (there is no result; subscribers would see
+    after_consume(result=None) on every worker shutdown and after_enqueue for a message that was never enqueued)."""
+    f = ctx.func(f"{WRAPPER}.__call__")
+    g = ctx.icfg(f, exclude=("call_set_context", "fn"), substitute=True)  # an extracted `_emit(stage, kwargs)` helper is part of the protocol
+    task_names = {t.id for st in ast.walk(f.node) if isinstance(st, ast.Assign) and isinstance(st.value, ast.Call) and (dotted(st.value.func) or "").endswith("create_task") for t in st.targets if isinstance(t, ast.Name)}
+    runs = [n for n in g.nodes if n.kind == "await" and n.func is f and n.ast is not None and (
+        any(isinstance(c, ast.Call) and (dotted(c.func) or "").endswith(("create_task", "call_set_context")) for c in ast.walk(n.ast))
+        or any(isinstance(c, ast.Name) and c.id in task_names for c in ast.walk(n.ast)))]
+    afters = [n.id for n in g.calls() if (n.callee or "").endswith("_repid_signal_emitter") and n.ast.args and "after" in unparse(n.ast.args[0])]
+    ctx.require(bool(afters) and bool(runs), f"{f.qualname}: after-signal emission not found")
+    bad = False
+    for r in runs:
+        ab = [d for d, k in g.succ[r.id] if k in ("exc", "cancel")]
+        if set(afters) & flow.reach(g, ab, flow.ALL_KINDS, include_start=True):
+            bad = True
+    ctx.check(not bad, rule, f, "after_<op> only after the operation completed", "not reachable from the failing / cancelled run",
+              "_middleware_wrapper.__call__ emits after_<op> also when the wrapped operation raised or was cancelled (e.g. from a finally block): subscribers receive after_ signals with result=None "
+              "for operations that never happened", instance="protocol: after only on success")
 
 
 def protocol(ctx: Ctx, rule="R-C17-PROTOCOL") -> None:
